@@ -49,6 +49,7 @@ type Seen struct {
 // Plugin is an in-process plugin on the real stub.
 type Plugin struct {
 	Idx, Base string
+	Events    []string // subscription answered in Configure (nil: the four requests of this driver)
 	Stub      stub.Stub
 	mu        sync.Mutex
 	script    map[string]Answer
@@ -91,6 +92,9 @@ func (p *Plugin) answer(id string, s Seen) Answer {
 type handler struct{ p *Plugin }
 
 func (h *handler) Configure(ctx context.Context, config, runtime, version string) (api.EventMask, error) {
+	if h.p.Events != nil {
+		return api.MustParseEventMask(h.p.Events...), nil
+	}
 	return api.MustParseEventMask("RunPodSandbox", "CreateContainer", "UpdateContainer", "StopContainer"), nil
 }
 func (h *handler) Synchronize(ctx context.Context, pods []*api.PodSandbox, ctrs []*api.Container) ([]*api.ContainerUpdate, error) {
@@ -153,8 +157,8 @@ func New(base string, opts ...adaptation.Option) (*Runtime, error) {
 }
 
 // AddPlugin registers a scripted plugin and waits until it is active.
-func (r *Runtime) AddPlugin(idx, base string) (*Plugin, error) {
-	p := &Plugin{Idx: idx, Base: base, script: map[string]Answer{}, seen: map[string]Seen{}, probes: map[string]int{}, closed: make(chan struct{})}
+func (r *Runtime) AddPlugin(idx, base string, events ...string) (*Plugin, error) {
+	p := &Plugin{Idx: idx, Base: base, Events: events, script: map[string]Answer{}, seen: map[string]Seen{}, probes: map[string]int{}, closed: make(chan struct{})}
 	st, err := stub.New(&handler{p: p},
 		stub.WithPluginName(base), stub.WithPluginIdx(idx),
 		stub.WithSocketPath(filepath.Join(r.Dir, "nri.sock")),
